@@ -1242,6 +1242,24 @@ def t_enum_members():
     except ValueError:
         out.append("invalid")
     return out
+
+
+def t_dict_views_are_live_sets():
+    from itertools import chain
+    a = {"x": 1, "y": 2, "z": 3}
+    b = {"y": 0, "w": 9}
+    ks = a.keys()
+    vs = a.values()
+    it = a.items()
+    a["q"] = 4
+    out = [list(ks), list(vs), list(it), sorted(a.keys() - b.keys()), sorted(a.keys() & b.keys()), sorted(b.keys() | {"n"}), sorted(a.keys() ^ b.keys()), "q" in ks, 4 in vs, ("x", 1) in it,
+           len(ks), a.keys() == {"x", "y", "z", "q"}, [k for k in b.keys() - a.keys()], sorted(a.keys() - ["x"]), list(chain.from_iterable([[1, 2], (3,)])), list(chain([1], "ab")),
+           sum(a.values()), max(a, key=a.get), sorted(a.items(), key=lambda kv: -kv[1])[0], dict(a.items()) == a, list(enumerate(b.values()))]
+    try:
+        a.values() - b.values()
+    except TypeError:
+        out.append("values are not sets")
+    return out
 '''
 
 
